@@ -38,9 +38,18 @@ _STD_CACHE = {}
 
 def _std_types(v):
     """digest of the standard types; the (large, rarely changing) library is hashed once per content signature"""
-    sig = tuple((comp, len(d), id(d)) for comp, d in sorted(v.items()))
-    key = (sig, tuple(tuple(sorted(map(str, d))) for comp, d in sorted(v.items())))
-    if key not in _STD_CACHE:
+    # cheap but value-sensitive signature: the values of every type take part (an in-place edit of one value of one
+    # standard type changes it); the robust digest below is only recomputed when the signature changes
+    def entry(t):
+        if isinstance(t, dict):
+            return tuple(t.values())
+        d = getattr(t, "__dict__", None)
+        return tuple(tuple(x) if hasattr(x, "__len__") and not isinstance(x, str) else x for x in d.values()) if d else id(t)
+    try:
+        key = hash(tuple((comp, tuple(d), tuple(map(entry, d.values()))) for comp, d in sorted(v.items())))
+    except TypeError:
+        key = None
+    if key is None or key not in _STD_CACHE:
         if len(_STD_CACHE) > 50:
             _STD_CACHE.clear()
         _STD_CACHE[key] = _obj({comp: {n: (type(t).__name__, repr(sorted((a, repr(b)) for a, b in vars(t).items()))
